@@ -41,7 +41,7 @@ func init() {
 		},
 		Quick:    150000,
 		Thorough: 2000000,
-		Require:  []string{"exchange.endedNormally", "exchange.endedWithError", "peer.silence", "transfer.multiBlock"},
+		Require:  []string{"ping.asyncAnswered", "tick.foundInactive", "exchange.endedNormally", "exchange.endedWithError", "peer.silence", "transfer.multiBlock"},
 		Assume: []string{
 			"the audit happens after every call has returned, every context has ended and simulated time has passed the largest deadline of the run (request deadlines, 5 s block-wise timeout, 247 s exchange lifetime) with housekeeping ticks in between",
 			"observations that are still live (registered, supported, not cancelled) may stay in the observation table; nothing else may stay anywhere",
